@@ -32,6 +32,8 @@ type Check struct {
 	Jobs        func(tier string) []Job
 	// Vacuity returns harness errors if the merged run is vacuous.
 	Vacuity func(m *Run) []string
+	// Finalize may post-process the merged run (e.g. add coverage census).
+	Finalize func(m *Run)
 }
 
 var registry = map[string]*Check{}
@@ -313,6 +315,9 @@ func runCheck(id, tier string) int {
 		m.Samples = m.Samples[:12]
 	}
 	sort.Strings(m.JobsRun)
+	if c.Finalize != nil {
+		c.Finalize(m)
+	}
 	if c.Vacuity != nil && len(m.Truncated) == 0 && !harnessFail {
 		m.HarnessErrors = append(m.HarnessErrors, c.Vacuity(m)...)
 	}
